@@ -45,7 +45,7 @@ func mdOf(o *Out) (md *types.EntityDescriptor, out world.Outcome) {
 	return
 }
 
-var outKeyStyles = []world.KeyStyle{world.KeyNone, world.KeyField, world.KeyTLS, world.KeySetter, world.KeyBoth, world.KeyBothDiffer}
+var outKeyStyles = []world.KeyStyle{world.KeyNone, world.KeyField, world.KeyTLS, world.KeySetter, world.KeyBoth, world.KeyBothDiffer, world.KeyBothDifferTLS}
 
 // urlPool: IdP endpoints, with and without existing query parameters (never named like
 // the SAML parameters).
@@ -289,7 +289,7 @@ func (o *Out) PreHistory(r *core.Run) bool {
 		switch k {
 		case world.KeyField, world.KeyTLS:
 			return world.KeySetter
-		case world.KeySetter, world.KeyBoth, world.KeyBothDiffer:
+		case world.KeySetter, world.KeyBoth, world.KeyBothDiffer, world.KeyBothDifferTLS:
 			return world.KeyField
 		}
 		return k
@@ -364,7 +364,7 @@ func (o *Out) PreHistory(r *core.Run) bool {
 	}
 	o.Cfg.Reuse = sp
 	usesSetter := func(k world.KeyStyle) bool {
-		return k == world.KeySetter || k == world.KeyBoth || k == world.KeyBothDiffer
+		return k == world.KeySetter || k == world.KeyBoth || k == world.KeyBothDiffer || k == world.KeyBothDifferTLS
 	}
 	o.Cfg.ReuseUsedEncSetter, o.Cfg.ReuseUsedSigSetter = usesSetter(cfgA.EncStyle), usesSetter(cfgA.SigStyle)
 	r.Fault("sp_prehistory_then_reconfigured")
